@@ -767,6 +767,15 @@ class ScriptDirectory:
         else:
             resolved_depends_on = None
 
+        if revid in self.revision_map._revision_map:
+            # a second file with the id (or a branch label) of an existing
+            # revision would replace that revision in the map, or even
+            # overwrite its file; refuse before anything is written
+            raise util.CommandError(
+                "Revision identifier '%s' is already present in the "
+                "revision history" % revid
+            )
+
         if branch_labels:
             # refuse a branch label that is already taken before the file
             # is written; the revision map would only notice when the new
